@@ -44,6 +44,14 @@ def gen_def(rng):
             return size, None
         si, fi = direction("i")
         so, fo = direction("o")
+        if fi and rng.random() < 0.3:
+            # the reply mirrors the request field for field, but the two directions have their OWN declared sizes (one of
+            # them with reserved bits above its highest field): each field set is built from its own size (seed C09-11
+            # cloned FieldsIn when the two field lists were equal)
+            import copy
+            fo = copy.deepcopy(fi)
+            top = max(f["end"] if f["end"] is not None else f["start"] + 1 for f in fi)
+            so = rng.choice([x for x in SIZES + [top, top + 8, top + 16] if x >= top and x != si] or [top + 8])
         rep = None
         if rng.random() < 0.25:
             rep = {"count": rng.choice([1, 2, 3]), "stride": rng.choice([1, 2, 4])}
